@@ -14,21 +14,28 @@ def PC.rOwn : PC → Bool
   | .granted md | .holding md | .ulCalled md => md = .r
   | _ => false
 
+def PC.isQueued : PC → Bool
+  | .queued _ => true
+  | _ => false
+
 structure Inv (s : State) : Prop where
   tokI : ∀ (t : Tid), s.tok = some t ↔ (s.pcs t).hasTok = true
   wI : ∀ (t : Tid), s.w = some t ↔ (s.pcs t).wOwn = true
   rI : ∀ (t : Tid), t ∈ s.rs ↔ (s.pcs t).rOwn = true
   rnd : s.rs.Nodup
+  qI : ∀ (t : Tid), t ∈ s.sendq ↔ (s.pcs t).isQueued = true
+  qnd : s.sendq.Nodup
+  qe : s.tok = none → s.sendq = []
 
 theorem inv_init (n : Nat) : Inv (init n) := by
-  constructor <;> simp [init, PC.hasTok, PC.wOwn, PC.rOwn]
+  constructor <;> simp [init, PC.hasTok, PC.wOwn, PC.rOwn, PC.isQueued]
 
 macro "cx_close" : tactic =>
   `(tactic| (constructor <;> dsimp only <;>
-      grind [PC.hasTok, PC.wOwn, PC.rOwn, List.Nodup.mem_erase_iff, List.Nodup.erase]))
+      grind [PC.hasTok, PC.wOwn, PC.rOwn, PC.isQueued, List.Nodup.mem_erase_iff, List.Nodup.erase]))
 
 theorem inv_step (s : State) (a : L) (s' : State) (h : Inv s) (hs : lts.step s a = some s') : Inv s' := by
-  obtain ⟨tokI, wI, rI, rnd⟩ := h
+  obtain ⟨tokI, wI, rI, rnd, qI, qnd, qe⟩ := h
   cases a with
   | call t op =>
     cases op <;> simp only [lts, step] at hs <;> split at hs <;> (try split at hs) <;> simp at hs <;> subst hs
@@ -36,9 +43,10 @@ theorem inv_step (s : State) (a : L) (s' : State) (h : Inv s) (hs : lts.step s a
   | tau t alt =>
     simp only [lts, step] at hs
     split at hs
-    · split at hs
-      · split at hs <;> simp at hs; subst hs; cx_close
-      · split at hs <;> simp at hs; subst hs; cx_close
+    · -- called
+      (repeat' split at hs) <;> simp at hs <;> subst hs <;> cx_close
+    · -- queued
+      (repeat' split at hs) <;> simp at hs <;> subst hs <;> cx_close
     · split at hs <;> simp at hs; subst hs; cx_close
     · split at hs <;> simp at hs; subst hs; cx_close
     · split at hs <;> simp at hs; subst hs; cx_close
@@ -47,12 +55,26 @@ theorem inv_step (s : State) (a : L) (s' : State) (h : Inv s) (hs : lts.step s a
       split at hs <;> simp at hs; subst hs
       simp [hr]
       cx_close
-    · split at hs <;> simp at hs; subst hs; cx_close
+    · -- ulRw: token receive, hand-off to the head of the queue
+      rename_i heq
+      split at hs
+      · split at hs
+        · simp at hs; subst hs; cx_close
+        · rename_i h rest hq
+          have hqh : (s.pcs h).isQueued = true := (qI h).mp (by simp [hq])
+          have hnd := qnd
+          rw [hq] at hnd
+          split at hs <;> simp at hs
+          subst hs
+          cx_close
+      · simp at hs
     · simp at hs
   | ret t r =>
     simp only [lts, step] at hs; split at hs <;> simp at hs <;> subst hs
     all_goals cx_close
-  | probe t p => simp [lts, step] at hs
+  | probe t p =>
+    cases p; simp only [lts, step] at hs; split at hs <;> simp at hs; subst hs
+    exact ⟨tokI, wI, rI, rnd, qI, qnd, qe⟩
   | sys i alt => simp [lts, step] at hs
   | env e =>
     cases e; simp only [lts, step] at hs; simp at hs; subst hs; cx_close
